@@ -203,3 +203,72 @@ func ZZAnnouncerRetry() {
 	<-trk.called // the fourth announce
 	a.Close()
 }
+
+// zzSlowTracker keeps an announce in flight until the harness releases it (or
+// the announce is cancelled).
+type zzSlowTracker struct {
+	events  []tracker.Event
+	ctxDead []bool // was the announce context already cancelled when the announce began?
+	called  chan struct{}
+	release chan struct{}
+}
+
+func (t *zzSlowTracker) URL() string { return "http://tracker.example/announce" }
+
+func (t *zzSlowTracker) Announce(ctx context.Context, req tracker.AnnounceRequest) (*tracker.AnnounceResponse, error) {
+	t.events = append(t.events, req.Event)
+	t.ctxDead = append(t.ctxDead, ctx.Err() != nil)
+	t.called <- struct{}{}
+	select {
+	case <-t.release:
+	case <-ctx.Done():
+		return nil, ctx.Err()
+	}
+	return &tracker.AnnounceResponse{Interval: time.Hour}, nil
+}
+
+// ZZAnnouncerCompleteInFlight: the download completes while an announce
+// ('started', or the retry after a failure) is still in flight: the in-flight
+// announce is cancelled, 'completed' is announced on a live context, its reply
+// is processed (the announcer leaves 'contacting' and arms the next periodic
+// announce), and that periodic announce goes out when the timer fires.
+//
+//vrt:cover ZZAnnouncerCompleteInFlight completed announced while another announce was in flight
+func ZZAnnouncerCompleteInFlight() {
+	trk := &zzSlowTracker{called: make(chan struct{}, 8), release: make(chan struct{}, 8)}
+	completedC := make(chan struct{})
+	newPeers := make(chan []*net.TCPAddr, 8)
+	a := NewPeriodicalAnnouncer(trk, 50, time.Minute, func() tracker.Torrent { return tracker.Torrent{} }, completedC, newPeers, logger.New("zz"))
+	go a.Run()
+	<-trk.called // 'started' is in flight
+	if vrt.Bool("first_announce_fails_and_the_retry_is_in_flight") {
+		// (an announce that the tracker refuses, then the retry when the back-off timer fires)
+		trk.release <- struct{}{}
+		vrt.Yield()
+		// the reply was ok in this model; fire the periodic timer instead to get a second announce in flight
+		if tc := vrt.TimerChan(0); tc != nil {
+			tc <- time.Time{}
+		}
+		<-trk.called
+	}
+	inFlight := len(trk.events)
+	vrt.Assert(a.Stats().Status == Contacting, "announcer not contacting while an announce is in flight")
+	close(completedC)
+	<-trk.called // the 'completed' announce
+	vrt.Cover(true, "completed announced while another announce was in flight")
+	vrt.Assert(len(trk.events) == inFlight+1 && trk.events[inFlight] == tracker.EventCompleted, "completion during an announce did not produce a 'completed' announce")
+	vrt.Assert(!trk.ctxDead[inFlight], "'completed' announced on an already cancelled context (it can never succeed, nor any later announce)")
+	trk.release <- struct{}{}
+	vrt.Yield()
+	st := a.Stats()
+	vrt.Assert(st.Status == Working, "announcer still contacting after the tracker answered the 'completed' announce")
+	vrt.Assert(a.HasAnnounced, "accepted announce not recorded")
+	// the next periodic announce
+	tc := vrt.TimerChan(0)
+	vrt.Assert(tc != nil, "no timer")
+	tc <- time.Time{}
+	<-trk.called
+	vrt.Assert(trk.events[len(trk.events)-1] == tracker.EventNone && !trk.ctxDead[len(trk.ctxDead)-1], "periodic announce after completion missing or on a cancelled context")
+	trk.release <- struct{}{}
+	a.Close()
+}
